@@ -159,6 +159,27 @@ def runEdit (j : Json) : P Json := do
       go c' (acc.push (Json.mkObj [("err", ofEditErr r), ("chart", ofChartSnap c')])) rest
   return Json.mkObj [("obs", .arr (← go c #[] ops))]
 
+/-! ## YAML data import / export -/
+
+def ofImport : Except IOErr Chart → Json
+  | .ok c => Json.mkObj [("outcome", .str "ok"), ("chart", ofChartSnap c),
+                         ("name", .str c.name), ("description", ofOptStr c.description),
+                         ("preamble", ofOptCode c.preamble)]
+  | .error .statechart => Json.mkObj [("outcome", .str "StatechartError")]
+  | .error .other => Json.mkObj [("outcome", .str "OTHER")]
+
+def runIO (kind : String) (j : Json) : P Json := do
+  match kind with
+  | "io_import" =>
+    let d ← data (← fld j "data")
+    return ofImport (importYamlData 64 d)
+  | "io_export" =>
+    let c ← chart (← fld j "chart")
+    return Json.mkObj [("data", ofData (exportDict c))]
+  | _ =>
+    let c ← chart (← fld j "chart")
+    return ofImport (importYamlData 64 (exportDict c))
+
 /-! ## clock cases (over `Rat`) -/
 
 def rat (j : Json) : P Rat :=
@@ -204,6 +225,9 @@ def run1 (j : Json) : P Json := do
   | "interp" => runInterp j
   | "clock" => runClock j
   | "edit" => runEdit j
+  | "io_import" => runIO "io_import" j
+  | "io_export" => runIO "io_export" j
+  | "io_roundtrip" => runIO "io_roundtrip" j
   | "ping" => return Json.mkObj [("pong", .bool true)]
   | k => throw s!"unknown case kind {k}"
 
